@@ -133,6 +133,9 @@ func newWorld(sc *scenario, rnd *hx.Rand) *world {
 		if e.dist != 0 {
 			env.DistributionID = strconv.Itoa(e.dist)
 		}
+		if e.emptyNotNil {
+			env.RepositoryIDs = []string{}
+		}
 		for _, r := range e.repos {
 			env.RepositoryIDs = append(env.RepositoryIDs, strconv.Itoa(r))
 		}
